@@ -56,6 +56,17 @@ PLAN["C17"] = simple("containers", [("full", "dev"), ("full", "release"), ("defa
 PLAN["C20"] = simple("fwd", [("full", "release"), ("min", "release"), ("full", "dev")], 20000, 500000) + \
     simple("layout", [("full", "dev"), ("min", "release"), ("full", "release")], 4000, 150000)
 
+def g4(config, profile, opprofile, quick, thorough, shard):
+    return {"engine": "g4", "config": config, "profile": profile, "shard": shard, "args": {"profile": opprofile, "pairs": 8},
+            "quick": {"cases": quick}, "thorough": {"cases": thorough}}
+
+
+PLAN["C07"] = [g4("full", "dev", "general", 1500, 40000, 20), g4("full", "release", "general", 1500, 40000, 21),
+               g4("nofin", "dev", "general", 1500, 40000, 22), g4("nofin", "release", "general", 1000, 40000, 23),
+               g4("full", "dev", "weak", 1000, 30000, 24), g4("full", "release", "cleaners", 1000, 30000, 25),
+               g4("full", "dev", "cyclic", 1000, 30000, 26), g4("default", "release", "finalizers", 1000, 30000, 27),
+               g4("noauto", "dev", "nesting", 1000, 30000, 28)] + heap("general", 2, [("full", "dev"), ("nofin", "release")], quick=6000)
+PLAN["C14"] += [g4("full", "dev", "cyclic", 800, 30000, 29), g4("nofin", "release", "cyclic", 800, 30000, 30)]
 PLAN["C18"] = [{"engine": "derive", "config": "default", "profile": "dev", "args": {}, "quick": {}, "thorough": {}}]
 PLAN["C19"] = simple("threads", [("full", "dev"), ("full", "release"), ("nofin", "dev")], 150, 6000) + \
     simple("teardown", [("full", "dev"), ("full", "release"), ("default", "dev"), ("min", "release")], 150, 4000)
@@ -69,7 +80,7 @@ RULES = {
     "C04": "proptest heap programs; exact shadow strong counts after every operation. Non-trivial: in a call without any collection >=2 objects were reclaimed by the reference-count path (a cascade) and one of them had lost a pointer before or had been traced by an earlier collection. Distinct by case hash.",
     "C05": "proptest heap programs with finalizer-heavy profile. Non-trivial: >=2 finalize calls inside one collector call, or a reference-count-path finalize of an object that had been buffered. Distinct by case hash.",
     "C06": "proptest heap programs whose finalizers resurrect (clone of a field, upgrade of a weak, store into a live object). Non-trivial: a collector call both resurrected >=1 finalized object and dropped >=1 other object, and the resurrected object was later read through a program handle. Distinct by case hash.",
-    "C07": "every generated program is executed fault-free, then re-executed with the k-th invocation of a callback kind panicking (k placed by the generator relative to the fault-free counts; up to 2 faults). Non-trivial: after a fault, a later call traced an object that had already been traced before the fault. Distinct by case hash.",
+    "C07": "crash-point enumeration (engine g4): every proptest-generated program (profiles general, weak, cleaners, cyclic, finalizers, nesting) is executed fault-free, then once per (callback kind in {trace entry, trace exit, finalize, drop, cleaning action, new_cyclic closure}, invocation index k) for ALL k up to the fault-free invocation count (capped at 64 per kind; coverage.programs_fully_enumerated counts the programs below the cap), then with 8 sampled pairs of successive faults; the rest of the program and the epilogue (2 collections, release of every root, 2 collections, upgrade of every weak handle) run after each fault. Plus proptest-sampled double faults (engine g1). Non-trivial: after a fault, a later call traced an object that had already been traced before the fault. Distinct by FNV hash of (program, fault plan).",
     "C08": "proptest heap programs with weak-heavy profile (upgrades at top level, in finalizers, destructors, cleaning actions). Non-trivial: an upgrade was attempted from a destructor or cleaning action while a collector was running, or the case saw both a successful and a failing upgrade. Distinct by case hash.",
     "C09": "proptest heap programs over few objects with count-heavy profile; Cc::weak_count, Weak::weak_count, Weak::strong_count checked after every operation. Non-trivial: a weak handle was queried after its value had been released. Distinct by case hash.",
     "C10": "proptest heap programs with cleaner profile. Non-trivial: a cleaner with >=2 actions, >=1 of them already run by clean(), whose owner was reclaimed by the collector. Distinct by case hash.",
@@ -107,8 +118,8 @@ CLAIMS = {
                  "Every finalize call is checked at the instant it runs: target unreachable from pre-existing pointers, at most once, before Drop, neighbours undropped and intact, flag model."),
     "C06": claim("stateful property-based testing (proptest) with resurrecting finalizer scripts, bounded-work invariant",
                  "Finalizers resurrect themselves/neighbours by clone, weak upgrade or store into live objects; survivors must stay intact and usable, the rest reclaimed, callbacks per API call bounded."),
-    "C07": claim("fault injection at generated callback invocation indices (fault-free run, then faulted re-run), same oracles in the continuation",
-                 "For each generated program the k-th invocation of a callback kind panics (k relative to the fault-free counts, up to 2 faults); the panic must reach the caller, the collector must be idle, and C01/C03/C05/C08 rules stay on for the rest of the program and the epilogue."),
+    "C07": claim("crash-point enumeration over generated programs (every callback invocation index of every kind, plus sampled fault pairs), same oracles in the continuation",
+                 "For each generated program every single crash point (kind, k) is executed; the injected panic must reach the caller of the API call, the collector must be idle afterwards (is_tracing false, phase flags clear, buffer consistent), and the C01/C03/C05/C08 rules stay on for the rest of the program and a fixed epilogue. Enumeration is complete per program (up to the 64-per-kind cap); programs themselves are sampled.", engine="g4-crash-point-enumerator"),
     "C08": claim("stateful property-based testing (proptest), three-valued upgrade expectation + post-hoc batch rule",
                  "Every Weak::upgrade (top level, finalizers, destructors, cleaning actions) is compared with the shadow state of the target; Some must be the right, intact allocation; None on a live owned target is a violation unless the target is destroyed in the same batch."),
     "C09": claim("stateful property-based testing (proptest), exact weak/strong count model, allocator-observed side record",
@@ -145,6 +156,7 @@ CLAIMS["C19"] = claim("property-based differential testing (concurrent vs solo e
 NOT_APPLICABLE = []
 
 ENGINES_EXTRA = [
+    {"name": "g4-crash-point-enumerator", "path": "/verif/harness/src/main.rs (rccv g4)", "serves_properties": ["C07", "C14"], "kind_free_text": "enumerates every callback invocation index of every callback kind of each generated program as a panic point; sampled pairs; own delta-debugging shrinker"},
     {"name": "policy", "path": "/verif/harness/src/policy.rs (rccv policy)", "serves_properties": ["C15"], "kind_free_text": "proptest workloads for the automatic collection policy"},
     {"name": "limits", "path": "/verif/harness/src/limits.rs (rccv limits)", "serves_properties": ["C16"], "kind_free_text": "proptest boundary walks at the counter limits"},
     {"name": "containers", "path": "/verif/harness/src/containers.rs (rccv containers)", "serves_properties": ["C17"], "kind_free_text": "proptest over container shapes with probe leaves"},
